@@ -404,6 +404,23 @@ func (h *fsHarness) exec(line string) (string, string) {
 		h.lastOK = err == nil
 		h.checkFiles(rotated && err == nil)
 		return fmt.Sprintf("write %d %d %d", id, size, elapsed), res + h.listing()
+	case "nofmt":
+		// an event that has no bytes for the sink's format (JSON when unset): refused, and nothing is touched
+		e := &eventlogger.Event{Type: "t", Formatted: map[string][]byte{"text": []byte("not the format of this sink\n")}}
+		bwBefore, lcBefore := h.sink.BytesWritten, h.sink.LastCreated
+		before := h.listing()
+		_, err := h.sink.Process(context.Background(), e)
+		if err == nil {
+			h.oracle("C13 FileSink reported success for an event that has no bytes for its format (table: text only, format: json)")
+		}
+		if h.sink.BytesWritten != bwBefore || !h.sink.LastCreated.Equal(lcBefore) || h.listing() != before {
+			h.oracle("C13 FileSink refused an event without its format but changed its files or counters (%s -> %s)", before, h.listing())
+		}
+		h.st.hit("nofmt")
+		if err != nil {
+			return line, "errfmt " + h.listing()
+		}
+		return line, "ok " + h.listing()
 	case "reopen":
 		tReopen := time.Now()
 		if err := h.sink.Reopen(); err != nil {
@@ -457,6 +474,8 @@ func genFsCase(p *prng) []string {
 		case r < 72:
 			ops = append(ops, fmt.Sprintf("write %d %d", id, 4+p.intn(197)))
 			id++
+		case r < 74:
+			ops = append(ops, "nofmt")
 		case r < 82:
 			ops = append(ops, "reopen")
 		case r < 90:
